@@ -207,9 +207,10 @@ class guard:
             return False
         import traceback
         text = "".join(traceback.format_exception(et, ev, tb))
-        if "ocean_science_utilities" in text:
+        # (jitted library code shows up as numba frames only)
+        if "ocean_science_utilities" in text or "/numba/" in text:
             self.run.violation(f"{self.what}: the library raised {et.__name__}",
-                               dict(self.detail, error=repr(ev), where=[ln.strip() for ln in text.splitlines() if "ocean_science_utilities" in ln][-3:]))
+                               dict(self.detail, error=repr(ev), where=[ln.strip() for ln in text.splitlines() if "ocean_science_utilities" in ln or "harness/" in ln][-3:]))
             return True
         return False
 
